@@ -310,11 +310,13 @@ class Composite:
 class DrivePart:
     """xvdrive run with explicit arguments, used as a part of a Composite."""
 
-    def __init__(self, harnesses, args, probed=(), deadline=(3000, 3000)):
+    def __init__(self, harnesses, args, probed=(), deadline=(3000, 3000), thorough_archs=None, only_in_thorough_as_quick=False):
         self.harnesses = harnesses
         self.args = list(args)
         self.probed = set(probed)
         self.deadline = deadline
+        self.thorough_archs = thorough_archs  # the thorough spaces run on these architectures only
+        self.only_in_thorough_as_quick = only_in_thorough_as_quick  # companion part: the quick spaces on every architecture, thorough tier only
 
     def replay(self, prop, path):
         if "perm" in self.harnesses:
@@ -323,6 +325,12 @@ class DrivePart:
 
     def __call__(self, prop, tier, seed):
         run, skipped = vlib.runnable_archs()
+        if self.only_in_thorough_as_quick:
+            if tier != "thorough":
+                return {"states": 0, "transitions": 0, "exhaustive": True}, skipped
+            tier = "quick"
+        elif tier == "thorough" and self.thorough_archs:
+            run = [a for a in run if a in self.thorough_archs]
         mods = []
         extra_args = []
         for h in self.harnesses:
@@ -864,11 +872,12 @@ CHECKS = {
         "quick": "moduli 2^k, k in [-40,40] step 2 (float) / [-300,300] step 12 (double) x 64 arguments, the four axes with both signs of the zero part, +-1 ulp off each axis, moderate box points, 64 seed points; binary operations on a thinned grid^2 (about 225 000 pairs), fused forms on a small grid^3 (about 250 000 triples), pow with 11 real exponents, polar over 129 angles; all 22 architectures",
         "thorough": "denser grids: every float binade / every 4th double binade x 256 arguments (+ axes, +-1 ulp off the axes, 256 seed points) for the unary functions, a 4x denser modulus ladder x 32 arguments squared for the binary ones, a 2.5x denser ladder x 8 arguments cubed for the fused forms"}, extra_args=["--complex"]),
     "C17": Composite([
-        ("exact", DrivePart(["scalar"], [], deadline=(600, 7200))),
+        ("exact", DrivePart(["scalar"], [], deadline=(600, 7200), thorough_archs=["sse2", "fma3_avx2", "avx512vnni_avx512vbmi2"])),
+        ("exact-every-architecture", DrivePart(["scalar"], [], deadline=(600, 600), only_in_thorough_as_quick=True)),
         ("elementary", MathPart("float,double", ["--scalar"], full_archs=["sse2", "fma3_avx2", "avx512vnni_avx512vbmi2"])),
     ], RULE_EW + "; the scalar overloads are run one element per call and judged by the same reference models as the batch lanes (so scalar == batch wherever the model is single-valued); NaN operands are outside the property; the scalar overloads of the elementary functions (exp ... lgamma, sqrt: 26 functions x float/double, compiled with every architecture's flags) are judged against the exact result (glibc first reference, MPFR arbiter) with the bound the property text states for the family (4.5 ulp; erfc 128; tgamma 16/256; lgamma 8; sqrt 0.5), which together with C10/C11 for the batch lanes bounds their disagreement", {
         "quick": "elementary: the C10/C11 quick unary argument spaces; exact: the C01/C02/C03/C06/C07/C08 operand spaces (8-bit pairs exhaustive, ALL16 x L16, lattices^2, every shift/rotate count, fp lattices, rounding windows) for add, sub, mul, div, mod, neg, abs, min, max, sadd, ssub, avg, avgr, incr/decr(_if), bitwise operators, shifts, rotates, comparisons, select, is_flint/is_even/is_odd, fma family, nearbyint_as_int, bitwise_cast, clip, pow with 26 integer exponents incl. INT_MAX and INT_MIN (scalar and batch forms against the shared square-and-multiply model); all 22 architectures' compile flags",
-        "thorough": "as quick with the thorough spaces of the underlying properties (elementary: all 2^32 float32 arguments with the flags of sse2, fma3<avx2> and avx512vnni<avx512vbmi2>; the lattices with every architecture's flags)"}),
+        "thorough": "as quick with the thorough spaces of the underlying properties (the scalar overloads contain no architecture-specific code, only the compile flags differ: the thorough spaces - all 2^32 16-bit pairs, all 2^32 float32 arguments - run with the flags of sse2, fma3<avx2> and avx512vnni<avx512vbmi2>, the quick spaces with every architecture's flags)"}),
 }
 
 
